@@ -155,5 +155,5 @@ def check(ctx):
         if name == 'u1':
             ok = ok and {c for r in okr for c in r['conds']} in ({'value=0', 'value=1'}, {'value=F', 'value=1'}) and len(okr) == 2
         else:
-            ok = ok and any(('Le(value, %d_u8)=T' % hi) in r['conds'] for r in okr) and any(('Le(value, %d_u8)=F' % hi) in r['conds'] for r in err)
+            ok = ok and any(('Lt(%d_u8, value)=F' % hi) in r['conds'] for r in okr) and any(('Lt(%d_u8, value)=T' % hi) in r['conds'] for r in err)
         ctx.ob('R11.1', 'range:' + name, ok, '%s accepts exactly 0..=%d' % (name, hi), fn.where(), txt[:200])
